@@ -106,16 +106,16 @@ def build(it: Interp, model: Model, env: Inst, t: Any) -> Inst:
     tok = it.new_opaque("tok")
 
     def inst(cname: str, **attrs: Any) -> Inst:
-        x = it.new_inst(model.cls(FE + cname), cname)
+        x = it.harness_inst(model.cls(FE + cname), cname)
         x.attrs["token"] = tok
         x.attrs.update(attrs)
         return x
 
     def query(i: int) -> Inst:
-        q = it.new_inst(model.cls("query.JSONPathQuery"), "q")
-        sel = it.new_inst(model.cls("selectors.NameSelector"), "name")
+        q = it.harness_inst(model.cls("query.JSONPathQuery"), "q")
+        sel = it.harness_inst(model.cls("selectors.NameSelector"), "name")
         sel.attrs.update({"env": env, "token": tok, "name": Const(f"a{i}")})
-        seg = it.new_inst(model.cls("segments.JSONPathChildSegment"), "seg")
+        seg = it.harness_inst(model.cls("segments.JSONPathChildSegment"), "seg")
         seg.attrs.update({"env": env, "token": tok, "selectors": PyTuple((sel,))})
         q.attrs.update({"env": env, "segments": PyTuple((seg,))})
         return inst("RelativeFilterQuery", query=q)
@@ -310,11 +310,11 @@ def check_grouping(model: Model, report: Report, rule: str) -> None:
         seen_shapes.add(sk)
 
         def body(it: Interp, t=t) -> Any:
-            env = it.new_inst(model.cls("environment.JSONPathEnvironment"), "env")
+            env = it.harness_inst(model.cls("environment.JSONPathEnvironment"), "env")
             expr = build(it, model, env, t)
-            fe = it.new_inst(model.cls(FE + "FilterExpression"), "fe")
+            fe = it.harness_inst(model.cls(FE + "FilterExpression"), "fe")
             fe.attrs.update({"token": it.new_opaque("tok"), "expression": expr})
-            sel = it.new_inst(fsel, "sel")
+            sel = it.harness_inst(fsel, "sel")
             sel.attrs.update({"env": env, "token": it.new_opaque("tok"), "expression": fe})
             return it.call_function(fn, [sel], {}, None, self_av=sel)
 
@@ -406,7 +406,7 @@ def check_templates(model: Model, report: Report, rule: str) -> None:
         fn = ci.find_method("__str__")
 
         def body(it: Interp) -> Any:
-            x = it.new_inst(ci, "x")
+            x = it.harness_inst(ci, "x")
             x.attrs["token"] = it.new_opaque("tok")
             x.attrs["env"] = it.new_opaque("env")
             marks = attrs_fn(it, x)
@@ -546,10 +546,10 @@ def check_templates(model: Model, report: Report, rule: str) -> None:
         fn = ci.find_method("__str__")
 
         def body(it: Interp, ci=ci, fn=fn) -> Any:
-            env = it.new_inst(model.cls("environment.JSONPathEnvironment"), "env")
+            env = it.harness_inst(model.cls("environment.JSONPathEnvironment"), "env")
             x = build(it, model, env, ("q", 7))
             if ci.name == "RootFilterQuery":
-                y = it.new_inst(ci, "root")
+                y = it.harness_inst(ci, "root")
                 y.attrs.update(x.attrs)
                 x = y
             return it.call_function(fn, [x], {}, None, self_av=x)
